@@ -9,6 +9,8 @@ import itertools
 from ..core import AnalysisError, Checker, call_name, calls_in, norm, walk_no_nested
 from ..interp import Host, Instance, Interp, InterpRaise, RepoClass, RepoFunc
 from ..tables import Denotations, GateTypeVal, gate_overrides
+from ..rewrites import FakeCircuit, FakeGate
+from .. import semantics
 
 DB = 'cirbo.circuits_db.db'
 NORM = 'cirbo.circuits_db.normalization'
@@ -77,6 +79,8 @@ def run(ck: Checker):
     den = Denotations(repo)
     ov = gate_overrides(den)
     ov[f'{LOGIC}.DontCare'] = DONT_CARE
+    ov['cirbo.core.circuit.gate.Gate'] = FakeGate
+    types = {t.var: t for t in ov.values() if isinstance(t, GateTypeVal)}
     it = Interp(repo, overrides=ov, max_steps=2_000_000)
     nm = repo.mod(NORM)
     db = repo.mod(DB)
@@ -106,9 +110,25 @@ def run(ck: Checker):
             # normal form: first entry False, rows strictly increasing
             if any(r[0] for r in ntt) or any(list(a) >= list(b) for a, b in zip(ntt, ntt[1:])):
                 return f'{_s(tt)} ({as_rows.__name__} rows): normal form {_s(ntt)} is not (first entry 0, strictly increasing rows)'
-            c = StubCircuit(it, [f'r{k}' for k in range(len(ntt))])
+            # a model circuit computing the normalised table row by row with real gate types (so that code
+            # looking at the type / users of an output gate meets realistic gates); the last row also feeds an inner user
+            ni_ = (len(ntt[0]) if ntt else 2).bit_length() - 1
+            c = FakeCircuit(types['INPUT'])
+            ins = [f'x{k}' for k in range(ni_)]
+            for l in ins:
+                c.emplace_gate(l, types['INPUT'])
+            for k, row in enumerate(ntt):
+                code = ''.join('1' if v else '0' for v in row)
+                if ni_ == 2:
+                    c.emplace_gate(f'r{k}', types[semantics.CODE_TO_NAME[code]], (ins[0], ins[1]))
+                else:
+                    c.emplace_gate(f'r{k}', types[{'00': 'ALWAYS_FALSE', '01': 'IFF', '10': 'NOT', '11': 'ALWAYS_TRUE'}[code]], () if code in ('00', '11') else (ins[0],))
+            c._outputs = [f'r{k}' for k in range(len(ntt))]
             it.getattr(nm, None, info, 'denormalize')(c)
-            got = [c.value(o, [list(r) for r in ntt]) for o in c._outputs]
+            assigns = [dict(zip(ins, vals)) for vals in itertools.product((False, True), repeat=ni_)]
+            got = [[c.evaluate(o, a) for a in assigns] for o in c._outputs]
+            if c.users_index() != c.users_from_gates():
+                return f'{_s(tt)}: users index of the denormalised circuit does not mirror its operands'
             if got != [list(r) for r in tt]:
                 return f'{_s(tt)} ({as_rows.__name__} rows): normalised to {_s(ntt)}, denormalised outputs compute {_s(got)}'
         except InterpRaise as e:
@@ -233,7 +253,17 @@ def run(ck: Checker):
                 dup.append(f'{_s(tt)} and {_s(seen[k])} share key {k}')
             seen[k] = key
     ck.check(not dup, 'C17.KEY', db, db.func('_truth_table_to_label'), f'keys are injective on tables ({len(seen)} tables)', '; '.join(dup[:2]), construct='_truth_table_to_label injective')
-    ck.floor('C17.KEY', 4)
+    # decoded and denormalised circuits are built through the checked circuit API only (well-formedness of every answer)
+    from .C02 import write_sites, _generic_site
+    raw = [(m_, node, t, kind, what) for m_, node, t, kind, what in write_sites(repo) if m_.name.startswith('cirbo.circuits_db')]
+    for m_, node, t, kind, what in raw:
+        _generic_site(ck, 'C17.KEY', m_, node, t, kind, what, f'{m_.qualname_of(node)}: {norm(node)[:150]}')
+    enc = repo.mod('cirbo.circuits_db.circuits_encoding')
+    dg = enc.func('_decode_gate')
+    adds = [c for c in calls_in(dg) if call_name(c) in ('add_gate', 'emplace_gate') and isinstance(c.func, ast.Attribute)]
+    ck.check(len(adds) == 1 and not [x for x in raw if x[0] is enc], 'C17.KEY', enc, dg, 'every decoded gate enters the circuit through the checked add_gate/emplace_gate (gate map and users index stay exact)',
+             f'{len(adds)} checked insertions, {len([x for x in raw if x[0] is enc])} raw writes to circuit internals in the decoder', construct='_decode_gate inserts through the circuit API')
+    ck.floor('C17.KEY', 5)
     ck.assume('NOT DECIDED: that every entry of the shipped aig/xaig databases decodes to its key within its basis (a statement about data files, not about code shape)')
     ck.assume('the store returns, for a key, a circuit computing that normalised table (content of the data files)')
 
